@@ -29,6 +29,8 @@ pub const CLASSES: &[&str] = &[
     "type-argument-count",
     "covariable-as-term",
     "variable-as-goto-target",
+    "label-shadowing-a-variable-used-as-term",
+    "variable-shadowing-a-label-used-as-target",
     "duplicate-definition",
     "duplicate-type",
     "duplicate-xtor",
@@ -255,6 +257,50 @@ pub fn mutate(p: &apr::Prog, text: &str, sites: &[Site], class: &str, rng: &mut 
             let Site::IntArg(x, y) = s else { return None };
             Some(splice(text, x, y, &format!("goto {name}(0)")))
         }
+        "label-shadowing-a-variable-used-as-term" => {
+            // `v` (an integer variable in argument position) -> `label v { v }`: the innermost binding of
+            // `v` is now a covariable, which is not a term
+            let is_ident = |t: &str| !t.is_empty() && t.chars().all(|c| c.is_alphanumeric() || c == '_') && !t.chars().next().unwrap().is_ascii_digit();
+            let cands: Vec<&Site> = sites
+                .iter()
+                .filter(|s| matches!(s, Site::IntArg(x, y) if is_ident(&text[*x..*y]) && sites.iter().any(|v| matches!(v, Site::VarUse(a, b) if a == x && b == y))))
+                .collect();
+            let s = pick(cands, rng)?;
+            let Site::IntArg(x, y) = s else { return None };
+            let v = text[x..y].to_string();
+            Some(splice(text, x, y, &format!("label {v} {{ {v} }}")))
+        }
+        "variable-shadowing-a-label-used-as-target" => {
+            // `label c { body }` -> `label c { let c: i64 = 0; body }` where every occurrence of `c` in the
+            // body is a use of the label: the innermost binding of `c` is now a variable, not a consumer
+            let ident_char = |c: char| c.is_alphanumeric() || c == '_';
+            let mut cands = Vec::new();
+            for s in sites {
+                let Site::LabelBody { name, a, b } = s else { continue };
+                let body = &text[*a..*b];
+                let mut occ = 0usize;
+                let mut from = 0usize;
+                while let Some(i) = body[from..].find(name.as_str()) {
+                    let st = from + i;
+                    let en = st + name.len();
+                    let left_ok = body[..st].chars().next_back().map(|c| !ident_char(c)).unwrap_or(true);
+                    let right_ok = body[en..].chars().next().map(|c| !ident_char(c)).unwrap_or(true);
+                    if left_ok && right_ok {
+                        occ += 1;
+                    }
+                    from = en;
+                }
+                let uses = sites.iter().filter(|u| matches!(u, Site::CovarUse(x, y) if *x >= *a && *y <= *b && &text[*x..*y] == name.as_str())).count();
+                if occ >= 1 && occ == uses {
+                    cands.push((name.clone(), *a));
+                }
+            }
+            if cands.is_empty() {
+                return None;
+            }
+            let (name, a) = cands[rng.below(cands.len())].clone();
+            Some(splice(text, a, a, &format!(" let {name}: i64 = 0; ")))
+        }
         "duplicate-definition" => {
             let s = pick(sites.iter().filter(|s| matches!(s, Site::DefText { .. })).collect(), rng)?;
             let Site::DefText { a, b, .. } = s else { return None };
@@ -370,6 +416,10 @@ pub fn run(ctx: &Ctx, acc: &mut Acc) {
                         format!("ill-typed edit ({class}) makes the checker panic instead of reporting: {msg}"),
                         J::obj().with("kind", J::s("reject")).with("class", J::s(*class)).with("src", J::s(mutant)).with("original", J::s(text.clone())),
                     );
+                }
+                Err(StageErr::Parse(_)) => {
+                    // a syntax error is not the diagnostic this class is about
+                    acc.discard(&format!("edit of class {class} is not syntactically valid (harness)"));
                 }
                 Err(_) => {
                     acc.count(&format!("rejected {class}"));
